@@ -108,14 +108,14 @@ Proof. reflexivity. Qed.
 
 (* ------------------------------------------------------------------------------------------------ *)
 (* right time: in step k (counted from 0) both solvers evaluate the inputs at sample k; Heun in both stages *)
-Theorem input_at_step_euler W inputs dt k x :
-  fst (euler_step (net_rhs W inputs) dt tt k x) = vadd x (vscale dt (fst (net_rhs W inputs tt k x))).
+Theorem input_at_step_euler udef W inputs dt k x :
+  fst (euler_step (net_rhs udef W inputs) dt tt k x) = vadd x (vscale dt (fst (net_rhs udef W inputs tt k x))).
 Proof. reflexivity. Qed.
 
-Theorem input_at_step_heun W inputs dt k x :
-  fst (heun_step (net_rhs W inputs) dt tt k x) =
-  let r1 := fst (net_rhs W inputs tt k x) in
-  vadd x (vscale (dt / Q2Qc 2)%Qc (vadd r1 (fst (net_rhs W inputs tt k (vadd x (vscale dt r1)))))).
+Theorem input_at_step_heun udef W inputs dt k x :
+  fst (heun_step (net_rhs udef W inputs) dt tt k x) =
+  let r1 := fst (net_rhs udef W inputs tt k x) in
+  vadd x (vscale (dt / Q2Qc 2)%Qc (vadd r1 (fst (net_rhs udef W inputs tt k (vadd x (vscale dt r1)))))).
 Proof. reflexivity. Qed.
 
 (* composition with the integrator x' = u: x_k = x_0 + dt * (u_0 + ... + u_{k-1}), Euler and Heun *)
@@ -147,17 +147,17 @@ Qed.
 
 (* ------------------------------------------------------------------------------------------------ *)
 (* D30 and the other loud classes *)
-Theorem run_inputs_depth2 s vectorize depth T dt W inputs x0 : 2 <= depth -> inputs <> [] ->
-  run_inputs s vectorize depth T dt W inputs x0 = ErrAttribute.
+Theorem run_inputs_depth2 s vectorize depth T dt udef W inputs x0 : 2 <= depth -> inputs <> [] ->
+  run_inputs s vectorize depth T dt udef W inputs x0 = ErrAttribute.
 Proof.
   intros Hd Hi. unfold run_inputs. destruct inputs; [congruence|]. cbn [length Nat.eqb negb andb].
   destruct (2 <=? depth) eqn:E; [reflexivity|lia].
 Qed.
 
 Lemma refuted_depth2 :
-  run_inputs Euler true 2 (mkq 1 1) (mkq 1 4) [[mkq 0 1]] [(A1 [mkq 1 1; mkq 2 1; mkq 4 1; mkq 8 1], [0])] [mkq 1 2] = ErrAttribute /\
+  run_inputs Euler true 2 (mkq 1 1) (mkq 1 4) (mkq 0 1) [[mkq 0 1]] [(A1 [mkq 1 1; mkq 2 1; mkq 4 1; mkq 8 1], [0])] [mkq 1 2] = ErrAttribute /\
   depth_ok 2 [(A1 [mkq 1 1; mkq 2 1; mkq 4 1; mkq 8 1], [0])] = false /\
-  outcome_eqb (Rows (spec_run_inputs Euler (mkq 1 1) (mkq 1 4) [[mkq 0 1]] [(A1 [mkq 1 1; mkq 2 1; mkq 4 1; mkq 8 1], [0])] [mkq 1 2]))
+  outcome_eqb (Rows (spec_run_inputs Euler (mkq 1 1) (mkq 1 4) (mkq 0 1) [[mkq 0 1]] [(A1 [mkq 1 1; mkq 2 1; mkq 4 1; mkq 8 1], [0])] [mkq 1 2]))
               (Rows [[mkq 0 1; mkq 1 2]; [mkq 1 4; mkq 3 4]; [mkq 1 2; mkq 5 4]; [mkq 3 4; mkq 9 4]]) = true.
 Proof. repeat split; vm_compute; reflexivity. Qed.
 
@@ -319,8 +319,8 @@ Proof.
   rewrite forcing_cons, spec_u_cons, (delivered_spec vectorize steps) by assumption. rewrite IH by assumption. reflexivity.
 Qed.
 
-Theorem net_rhs_spec vectorize steps W inputs c k x : forallb (input_ok vectorize steps) inputs = true -> k < steps ->
-  net_rhs W inputs c k x = spec_rhs W inputs c k x.
+Theorem net_rhs_spec vectorize steps udef W inputs c k x : forallb (input_ok vectorize steps) inputs = true -> k < steps ->
+  net_rhs udef W inputs c k x = spec_rhs udef W inputs c k x.
 Proof.
   intros Hall Hk. unfold net_rhs, spec_rhs. f_equal. apply map_ext. intros i.
   now rewrite (forcing_spec vectorize steps) by assumption.
@@ -350,9 +350,9 @@ Proof.
 Qed.
 
 (* C08, whole runs: any network of integrators with edges, any inputs in an accepted form, any number of steps *)
-Theorem run_inputs_partial s vectorize depth T dt W inputs x0 :
+Theorem run_inputs_partial s vectorize depth T dt udef W inputs x0 :
   inputs_guard vectorize depth T dt inputs = true -> rows_fit T dt dt = true -> frame_ok T dt = true ->
-  run_inputs s vectorize depth T dt W inputs x0 = Rows (spec_run_inputs s T dt W inputs x0).
+  run_inputs s vectorize depth T dt udef W inputs x0 = Rows (spec_run_inputs s T dt udef W inputs x0).
 Proof.
   intros Hg Hfit Hok. unfold inputs_guard in Hg. apply andb_prop in Hg as [Hd Hall].
   unfold run_inputs.
@@ -368,7 +368,7 @@ Proof.
     rewrite forallb_forall in Hall. specialize (Hall inp Hin). unfold input_ok in Hall.
     apply andb_prop in Hall as [Hall _]. apply andb_prop in Hall as [Hall _]. apply andb_prop in Hall as [_ Hall]. lia. }
   rewrite E3.
-  pose proof (run_partial unit (net_rhs W inputs) s T dt None 0%Qc (seq 0 (length x0)) x0 tt) as HR. cbn zeta in HR.
+  pose proof (run_partial unit (net_rhs udef W inputs) s T dt None 0%Qc (seq 0 (length x0)) x0 tt) as HR. cbn zeta in HR.
   rewrite HR by assumption. f_equal.
   unfold spec_run_inputs, spec_run. apply map_ext_in. intros k Hk. apply filter_In in Hk as [Hk _]. apply in_seq in Hk.
   apply rows_fit_true in Hfit as [Hss Hc].
@@ -377,4 +377,15 @@ Proof.
   apply (traj_ext _ _ 0 (rnd (T / dt))); [|lia].
   intros t Ht c y. apply step_of_ext. intros c' y'. replace (t + 0) with t by lia.
   now apply (net_rhs_spec vectorize (rnd (T / dt))).
+Qed.
+
+(* default rule: a unit without any source keeps the declared default of u; any source replaces it *)
+Theorem base_uncovered udef W inputs i : covered W inputs i = false -> base udef W inputs i = udef.
+Proof. unfold base. now intros ->. Qed.
+Theorem base_covered udef W inputs i : covered W inputs i = true -> base udef W inputs i = 0%Qc.
+Proof. unfold base. now intros ->. Qed.
+Theorem covered_by_input W inp inputs i : In inp inputs -> In i (snd inp) -> covered W inputs i = true.
+Proof.
+  intros H1 H2. unfold covered. apply orb_true_intro. left. apply existsb_exists. exists inp. split; [exact H1|].
+  apply existsb_exists. exists i. split; [exact H2|apply Nat.eqb_refl].
 Qed.
